@@ -1,7 +1,7 @@
 (* C08 model driver: evaluates the extracted ModuleModel at floats on case lines from stdin.
    RUN fixed efix natoms it0 nv tsf.. nb {id tsf nvars var.. kind params} nev {event}
      kind params: H k {c w}.. | L k {c w}.. | W k {u w}.. | A k stop dec | G | C e ; then the scaling grid: S lo w n v.. | N
-     event: S|R nv {ncvc {coeff np val ng {atom gx gy gz}..}..}..   |   X id on
+     event: S|R nv {ncvc {coeff np val ng {atom gx gy gz}..}..}..   |   X id on  (set active)  |   Y id on  (set apply_force)
    -> one line, one record per calc() separated by " ; ":
      it= err= E= V=act,rc,awake,apply,arc,x,fb,fba,f|.. B=act,rc,awake,E,F:F..,REF|.. A=fx,fy,fz|.. *)
 open Model
@@ -64,6 +64,7 @@ let () =
                match next () with
                | "S" -> EStep (vars_in ())
                | "R" -> ERepeat (vars_in ())
+               | "Y" -> let id = nn () in let on = nb () in ESetApply (id, on)
                | _ -> let id = nn () in let on = nb () in ESetActive (id, on)) in
            let outs = run_kinds fops fixed efix it0 tsfs biases evs in
            let show o =
@@ -71,9 +72,9 @@ let () =
                  Printf.sprintf "%s,%d,%s,%s,%d,%s,%s,%s,%s" (b2s v.v_active) (int_of_z v.v_rc) (b2s v.v_awake)
                    (b2s v.v_apply) (int_of_z v.v_arc) (hex v.v_x) (hex v.v_fb) (hex v.v_fba) (hex v.v_f)) o.o_vars) in
              let bs = String.concat "|" (List.map (fun b ->
-                 Printf.sprintf "%s,%d,%s,%s,%s,%s" (b2s b.b_active) (int_of_z b.b_rc) (b2s b.b_awake) (hex b.b_energy)
+                 Printf.sprintf "%s,%d,%s,%s,%s,%s,%s" (b2s b.b_active) (int_of_z b.b_rc) (b2s b.b_awake) (hex b.b_energy)
                    (if b.b_forces = [] then "-" else String.concat ":" (List.map hex b.b_forces))
-                   (if fst b.b_st then hex (snd b.b_st) else "-")) o.o_biases) in
+                   (if fst b.b_st then hex (snd b.b_st) else "-") (b2s b.b_apply)) o.o_biases) in
              let at = String.concat "|" (List.init natoms (fun a ->
                  let c q = hex (coord_force fops o.o_vars (nat_of_int (3 * a + q))) in
                  Printf.sprintf "%s,%s,%s" (c 0) (c 1) (c 2))) in
